@@ -47,7 +47,8 @@ func (c *boolExprSimplifyChecker) VisitExpr(x ast.Expr) {
 
 	// Throw away non-bool expressions and avoid redundant
 	// AST copying below.
-	if typ := c.ctx.TypeOf(x); typ == nil || !typep.HasBoolKind(typ.Underlying()) {
+	// Conditions of if/for statements have the untyped bool type.
+	if typ := c.ctx.TypeOf(x); typ == nil || !typep.HasBooleanProp(typ.Underlying()) {
 		return
 	}
 
